@@ -8,7 +8,12 @@ from c08 import observe, gout
 
 THEOREMS = ['C05_bounded_native_is_spec', 'C05_integer_native_is_spec', 'C05_unsigned_native_is_spec',
             'C05_none_native_is_spec', 'C05_text_leaf_spec', 'C05_leaf_verdicts_agree', 'C05_text_leaf_total',
-            'C05_freq_verdicts_agree', 'C05_dict_freq_spec']
+            'C05_freq_verdicts_agree', 'C05_dict_freq_spec',
+            'C05_unicode_checks_are_spec', 'C05_unicode_none_is_spec', 'C05_text_paths_are_spec', 'C05_text_verdicts_agree',
+            'C05_text_null_verdicts_agree', 'C05_text_paths_total', 'C05_datetime_native_is_spec', 'C05_datetime_naive_rule',
+            'C05_datetime_verdict_of_instant', 'C05_datetime_lex_instant', 'C05_date_native_is_spec', 'C05_time_native_is_spec',
+            'C05_datetime_leaf_spec', 'C05_date_leaf_spec', 'C05_time_leaf_spec', 'C05_range_paths_agree',
+            'C05_array_occurrence_is_spec', 'C05_flat_array_is_spec', 'C05_array_verdicts_agree']
 
 INT_CLASSES = {'Integer8': (True, 8), 'Integer16': (True, 16), 'Integer32': (True, 32), 'Integer64': (True, 64),
                'UnsignedInteger8': (False, 8), 'UnsignedInteger16': (False, 16), 'UnsignedInteger32': (False, 32),
@@ -85,10 +90,52 @@ def g_int_type(cn):
 
 
 # ------------------------------------------------------------------ end-to-end driver
+class NoForm(Exception):
+    """the logical request has no wire form in this protocol"""
+
+
+class _No(object):
+    def __repr__(self):
+        return 'NO'
+NO = _No()
+
+
+class Wv(object):
+    """a leaf value with its wire forms: `text` for XML / SOAP / HttpRpc (None: no text form), `doc` for
+    JSON / YAML / MessagePack (NO: no document form), `nil` for an explicit null"""
+
+    def __init__(self, text=None, doc=NO, nil=False):
+        self.text, self.doc, self.nil = text, doc, nil
+
+    def __repr__(self):
+        return 'Wv(%r, %r%s)' % (self.text, self.doc, ', nil=True' if self.nil else '')
+NULL = Wv(None, None, nil=True)
+
+_NS = {}
+def ns():
+    """the names that type expressions and payloads of the tables (and of replay files) may use"""
+    if not _NS:
+        import datetime, decimal, uuid
+        import spyne.model.primitive as P
+        from spyne.model.complex import Array
+        from spyne.model.enum import Enum
+        for k in ('Unicode', 'AnyUri', 'Integer', 'UnsignedInteger', 'Integer8', 'Integer16', 'Integer32', 'Integer64',
+                  'UnsignedInteger8', 'UnsignedInteger16', 'UnsignedInteger32', 'UnsignedInteger64', 'Decimal', 'Double',
+                  'Boolean', 'DateTime', 'Date', 'Time', 'Duration', 'Uuid'):
+            _NS[k] = getattr(P, k)
+        _NS.update(datetime=datetime, D=decimal.Decimal, uuid=uuid, Array=Array, Enum=Enum, Wv=Wv, NO=NO, NULL=NULL,
+                   utc=datetime.timezone.utc, nan=float('nan'), inf=float('inf'))
+    return _NS
+
+
+def mk_type(expr):
+    return eval(expr, dict(ns()))
+
+
 class Harness(object):
     """one generated service around the type under test, at every nesting position"""
 
-    def __init__(self, T, multi=None):
+    def __init__(self, T, multi=None, array=None):
         from spyne import Application, rpc, ServiceBase, ComplexModel, Array, Unicode, XmlAttribute
         from spyne.model.complex import ComplexModelMeta
         self.T = T
@@ -97,6 +144,9 @@ class Harness(object):
         WA = ComplexModelMeta('WA', (ComplexModel,), {'__namespace__': TNS, '_type_info': [('v', XmlAttribute(T))]})
         M = T.customize(min_occurs=multi[0], max_occurs=multi[1]) if multi else T.customize(max_occurs=3)
         WM = ComplexModelMeta('WM', (ComplexModel,), {'__namespace__': TNS, '_type_info': [('v', M)]})
+        AT = array if array is not None else Array(T)
+        WL = ComplexModelMeta('WL', (ComplexModel,), {'__namespace__': TNS, '_type_info': [('l', AT)]})
+        self.item_tag = list(AT._type_info.keys())[0]
 
         class S(ServiceBase):
             @rpc(T, _returns=Unicode)
@@ -107,9 +157,13 @@ class Harness(object):
             def nested(ctx, x):
                 calls.append(('nested', None if x is None else x.v)); return 'ok'
 
-            @rpc(Array(T), _returns=Unicode)
+            @rpc(AT, _returns=Unicode)
             def arr(ctx, x):
                 calls.append(('arr', None if x is None else list(x))); return 'ok'
+
+            @rpc(WL, _returns=Unicode)
+            def narr(ctx, x):
+                calls.append(('narr', None if x is None or x.l is None else list(x.l))); return 'ok'
 
             @rpc(WA, _returns=Unicode)
             def att(ctx, x):
@@ -124,7 +178,6 @@ class Harness(object):
                 calls.append(('nmulti', None if x is None or x.v is None else list(x.v))); return 'ok'
         self.S = S
         self.apps = {}
-        self.member_tag = Array(T)._type_info.keys().__iter__().__next__() if False else None
 
     def app(self, proto):
         from spyne import Application
@@ -141,28 +194,33 @@ class Harness(object):
         return self.apps[proto]
 
     # ---- wire forms.  A logical request is (method, payload) with payload:
-    #   top/nested/att: ('val', text_or_number) | ('null',) | ('absent',)
-    #   arr/multi/nmulti: ('items', [text_or_number,...])
+    #   top/nested/att: ('val', value) | ('null',) | ('absent',) | ('dup', [values])
+    #   arr/narr/multi/nmulti: ('items', [values]) | ('absent',) | ('null',)
+    #   a value is a plain int/str/bool (text form str(v), document form v) or a Wv
     def xml_body(self, meth, payload, soap):
         from lxml import etree
         ns = '{%s}' % TNS
         root = etree.Element(ns + meth, nsmap={None: TNS, 'xsi': XSI})
 
+        def elem(parent, tag, v):
+            e = etree.SubElement(parent, ns + tag)
+            if isinstance(v, Wv) and v.nil:
+                e.set('{%s}nil' % XSI, 'true')
+            else:
+                e.text = wire_text(v)
+            return e
+
         def leaf(parent, tag, p):
             if p[0] == 'absent':
                 return
-            e = etree.SubElement(parent, ns + tag)
-            if p[0] == 'null':
-                e.set('{%s}nil' % XSI, 'true')
-            else:
-                e.text = wire_text(p[1])
+            elem(parent, tag, NULL if p[0] == 'null' else p[1])
         if meth == 'top' and payload[0] == 'dup':
             for it in payload[1]:
-                etree.SubElement(root, ns + 'x').text = wire_text(it)
+                elem(root, 'x', it)
         elif meth == 'nested' and payload[0] == 'dup':
             x = etree.SubElement(root, ns + 'x')
             for it in payload[1]:
-                etree.SubElement(x, ns + 'v').text = wire_text(it)
+                elem(x, 'v', it)
         elif meth == 'top':
             leaf(root, 'x', payload)
         elif meth == 'nested':
@@ -172,18 +230,24 @@ class Harness(object):
             x = etree.SubElement(root, ns + 'x')
             if payload[0] == 'val':
                 x.set('v', wire_text(payload[1]))
-        elif meth == 'arr':
-            x = etree.SubElement(root, ns + 'x')
-            tag = self.T.get_type_name()
-            for it in payload[1]:
-                etree.SubElement(x, ns + tag).text = wire_text(it)
+            elif payload[0] == 'null':
+                raise NoForm()       # an attribute cannot be nil
+        elif meth in ('arr', 'narr'):
+            parent = root if meth == 'arr' else etree.SubElement(root, ns + 'x')
+            tag = 'x' if meth == 'arr' else 'l'
+            if payload[0] == 'null':
+                elem(parent, tag, NULL)
+            elif payload[0] == 'items':
+                x = etree.SubElement(parent, ns + tag)
+                for it in payload[1]:
+                    elem(x, self.item_tag, it)
         elif meth == 'multi':
             for it in payload[1]:
-                etree.SubElement(root, ns + 'x').text = wire_text(it)
+                elem(root, 'x', it)
         elif meth == 'nmulti':
             x = etree.SubElement(root, ns + 'x')
             for it in payload[1]:
-                etree.SubElement(x, ns + 'v').text = wire_text(it)
+                elem(x, 'v', it)
         if soap:
             env = etree.Element('{http://schemas.xmlsoap.org/soap/envelope/}Envelope')
             body = etree.SubElement(env, '{http://schemas.xmlsoap.org/soap/envelope/}Body')
@@ -193,89 +257,107 @@ class Harness(object):
 
     def doc_body(self, meth, payload):
         def leaf(p):
-            return None if p[0] == 'null' else p[1]
+            return None if p[0] == 'null' else doc_value(p[1])
         if payload[0] == 'dup':
-            return None        # a map cannot hold a key twice: not expressible in a dict document
+            raise NoForm()        # a map cannot hold a key twice: not expressible in a dict document
         if meth == 'top':
             inner = {} if payload[0] == 'absent' else {'x': leaf(payload)}
-        elif meth == 'nested':
+        elif meth in ('nested', 'att'):
             inner = {'x': ({} if payload[0] == 'absent' else {'v': leaf(payload)})}
         elif meth in ('arr', 'multi'):
-            inner = {'x': list(payload[1])}
-        elif meth == 'nmulti':
-            inner = {'x': {'v': list(payload[1])}}
+            inner = {} if payload[0] == 'absent' else {'x': None if payload[0] == 'null' else [doc_value(i) for i in payload[1]]}
+        elif meth in ('narr', 'nmulti'):
+            k = 'l' if meth == 'narr' else 'v'
+            inner = {'x': ({} if payload[0] == 'absent' else
+                           {k: None if payload[0] == 'null' else [doc_value(i) for i in payload[1]]})}
         else:
-            return None
+            raise NoForm()
         return {meth: inner}
 
     def http_qs(self, meth, payload):
-        if payload[0] == 'dup' and meth in ('top', 'nested'):
-            return '&'.join(('x=' if meth == 'top' else 'x.v=') + quote(wire_text(i)) for i in payload[1])
-        if meth == 'top':
-            return '' if payload[0] == 'absent' else ('x=' + quote(wire_text(payload[1])) if payload[0] == 'val' else None)
-        if meth == 'nested':
-            return '' if payload[0] == 'absent' else ('x.v=' + quote(wire_text(payload[1])) if payload[0] == 'val' else None)
-        if meth in ('arr', 'multi'):
-            return '&'.join('x=' + quote(wire_text(i)) for i in payload[1])
-        if meth == 'nmulti':
-            return '&'.join('x.v=' + quote(wire_text(i)) for i in payload[1])
-        return None
+        if payload[0] == 'null':
+            raise NoForm()        # the flat notation has no null
+        key = {'top': 'x', 'nested': 'x.v', 'att': 'x.v', 'arr': 'x', 'multi': 'x', 'narr': 'x.l', 'nmulti': 'x.v'}[meth]
+        if payload[0] == 'absent':
+            if meth in ('nested', 'att', 'narr', 'nmulti'):
+                raise NoForm()    # no pairs at all: the enclosing object itself is absent in the flat form
+            return ''
+        vals = [payload[1]] if payload[0] == 'val' else payload[1]
+        if payload[0] == 'items' and not vals:
+            if meth in ('arr', 'narr', 'nmulti'):
+                raise NoForm()    # present-but-empty has no flat form; for nmulti the enclosing object would be absent
+            return ''
+        return '&'.join(key + '=' + quote(wire_text(i)) for i in vals)
 
     def run(self, proto, meth, payload):
-        """-> ('called', value) | ('fault', code) | ('crash', exc type) | None when the position has no wire form"""
-        from spyne.server import ServerBase
-        from spyne.server.wsgi import WsgiApplication
-        from spyne.context import MethodContext
-        del self.calls[:]
+        """-> ('called', value) | ('fault', code) | ('crash', exc type) | None when the request has no wire form"""
         try:
             if proto == 'http':
-                qs = self.http_qs(meth, payload)
-                if qs is None:
-                    return None
-                w = WsgiApplication(self.app(proto))
-                st = []
-                env = {'REQUEST_METHOD': 'GET', 'PATH_INFO': '/' + meth, 'QUERY_STRING': qs, 'SERVER_NAME': 'x',
-                       'SERVER_PORT': '80', 'wsgi.url_scheme': 'http', 'wsgi.input': BytesIO(b''), 'SCRIPT_NAME': ''}
-                out = b''.join(w(env, lambda s, h, e=None: st.append(s)))
-                if self.calls:
-                    return ('called', self.calls[0][1])
-                try:
-                    return ('fault', json.loads(out.decode('utf8')).get('faultcode'))
-                except Exception:
-                    return ('fault', 'status ' + st[0] if st else '?')
+                return drive(self.app(proto), self.calls, proto, qs=self.http_qs(meth, payload), meth=meth)
             if proto in ('xml', 'soap11'):
                 body = self.xml_body(meth, payload, proto == 'soap11')
             else:
-                d = self.doc_body(meth, payload)
-                if d is None:
-                    return None
-                if proto == 'json':
-                    body = json.dumps(d).encode()
-                elif proto == 'yaml':
-                    import yaml
-                    body = yaml.safe_dump(d).encode()
-                else:
-                    import msgpack
-                    (k, v), = d.items()
-                    # documented convention: integers msgpack cannot carry (outside -2^63 .. 2^64-1) travel as text
-                    body = msgpack.packb({k.encode(): mp_big(v)})
-            srv = ServerBase(self.app(proto))
-            ctx = MethodContext(srv, MethodContext.SERVER)
-            ctx.in_string = [body]
-            ctx, = srv.generate_contexts(ctx)
-            if ctx.in_error:
-                return ('fault', ctx.in_error.faultcode)
-            srv.get_in_object(ctx)
-            if ctx.in_error:
-                return ('fault', ctx.in_error.faultcode)
-            srv.get_out_object(ctx)
-            if ctx.out_error:
-                return ('fault', ctx.out_error.faultcode)
-            if self.calls:
-                return ('called', self.calls[0][1])
-            return ('fault', 'not called')
-        except Exception as e:
-            return ('crash', type(e).__name__)
+                body = encode_doc(proto, self.doc_body(meth, payload))
+        except NoForm:
+            return None
+        return drive(self.app(proto), self.calls, proto, body=body)
+
+
+def encode_doc(proto, d):
+    try:
+        if proto == 'json':
+            return json.dumps(d).encode()
+        if proto == 'yaml':
+            import yaml
+            return yaml.safe_dump(d).encode()
+        import msgpack
+        (k, v), = d.items()
+        # documented convention: integers msgpack cannot carry (outside -2^63 .. 2^64-1) travel as text
+        return msgpack.packb({k.encode(): mp_big(v)})
+    except (TypeError, ValueError, OverflowError):
+        raise NoForm()            # this document format cannot carry the value (e.g. bytes in JSON)
+    except Exception as e:
+        if type(e).__module__.startswith('yaml'):
+            raise NoForm()
+        raise
+
+
+def drive(app, calls, proto, body=None, qs=None, meth=None):
+    """one request through the real pipeline -> ('called', value) | ('fault', code) | ('crash', exc type)"""
+    from spyne.server import ServerBase
+    from spyne.server.wsgi import WsgiApplication
+    from spyne.context import MethodContext
+    del calls[:]
+    try:
+        if proto == 'http':
+            w = WsgiApplication(app)
+            st = []
+            env = {'REQUEST_METHOD': 'GET', 'PATH_INFO': '/' + meth, 'QUERY_STRING': qs, 'SERVER_NAME': 'x',
+                   'SERVER_PORT': '80', 'wsgi.url_scheme': 'http', 'wsgi.input': BytesIO(b''), 'SCRIPT_NAME': ''}
+            out = b''.join(w(env, lambda s, h, e=None: st.append(s)))
+            if calls:
+                return ('called', calls[0][1])
+            try:
+                return ('fault', json.loads(out.decode('utf8')).get('faultcode'))
+            except Exception:
+                return ('fault', 'status ' + st[0] if st else '?')
+        srv = ServerBase(app)
+        ctx = MethodContext(srv, MethodContext.SERVER)
+        ctx.in_string = [body]
+        ctx, = srv.generate_contexts(ctx)
+        if ctx.in_error:
+            return ('fault', ctx.in_error.faultcode)
+        srv.get_in_object(ctx)
+        if ctx.in_error:
+            return ('fault', ctx.in_error.faultcode)
+        srv.get_out_object(ctx)
+        if ctx.out_error:
+            return ('fault', ctx.out_error.faultcode)
+        if calls:
+            return ('called', calls[0][1])
+        return ('fault', 'not called')
+    except Exception as e:
+        return ('crash', type(e).__name__)
 
 
 def mp_big(v):
@@ -289,9 +371,21 @@ def mp_big(v):
 
 
 def wire_text(v):
+    if isinstance(v, Wv):
+        if v.text is None:
+            raise NoForm()
+        return v.text
     if isinstance(v, bool):
         return 'true' if v else 'false'
     return str(v)
+
+
+def doc_value(v):
+    if isinstance(v, Wv):
+        if v.doc is NO:
+            raise NoForm()
+        return v.doc
+    return v
 
 
 def int_type_cases(check, tier):
@@ -299,7 +393,7 @@ def int_type_cases(check, tier):
     rng = check.rng
     cases = [(cn, {}) for cn in INT_CLASSES]
     cases += [('Integer8', {'ge': -5, 'le': 5}), ('Integer8', {'gt': -5, 'lt': 5}), ('Integer', {'ge': 0, 'lt': 100}),
-              ('Integer32', {'values': [1, 5, 7]}), ('UnsignedInteger16', {'le': 1000}), ('Integer', {'gt': 10 ** 20}),
+              ('Integer32', {'values': [1, 5, 7]}), ('Integer', {'values': [7]}), ('UnsignedInteger16', {'le': 1000}), ('Integer', {'gt': 10 ** 20}),
               ('Integer16', {'ge': 10, 'gt': 12, 'le': 20, 'lt': 19}), ('Integer64', {'le': -1}),
               ('Integer8', {'nillable': False}), ('Integer', {'nillable': False, 'min_occurs': 1}),
               ('Integer32', {'min_occurs': 1})]
@@ -375,8 +469,6 @@ def family_int_e2e(check, tier):
                 continue
             for proto in PROTOS:
                 for pos in positions:
-                    if pos == 'att' and proto not in ('xml', 'soap11'):
-                        continue
                     payload = ('items', [z]) if pos == 'arr' else ('val', z)
                     res = h.run(proto, pos, payload)
                     got = classify(res)
@@ -429,7 +521,7 @@ def family_text_e2e(check, tier):
     from spyne.model.primitive import Unicode
     rng = check.rng
     tcases = [{'min_len': 2}, {'max_len': 3}, {'min_len': 1, 'max_len': 4}, {'pattern': '[a-z]+'}, {'pattern': 'a|ab'},
-              {'pattern': '\\d{3}'}, {'values': ['red', 'green']}, {'min_len': 2, 'pattern': '[ab]*'}]
+              {'pattern': '\\d{3}'}, {'values': ['red', 'green']}, {'min_len': 2, 'pattern': '[ab]*'}, {'values': ['red']}]
     probes = ['', 'a', 'ab', 'abc', 'abcd', 'abcde', 'red', 'Red', 'green', 'abc1', '123', '1234', '12', 'ab\n', 'aab', 'b', 'ünï']
     for kw in tcases:
         T = Unicode.customize(**kw)
@@ -438,10 +530,6 @@ def family_text_e2e(check, tier):
             want = ref_conforms_text(kw, s)
             for proto in PROTOS:
                 for pos in ('top', 'nested', 'arr', 'att'):
-                    if pos == 'att' and proto not in ('xml', 'soap11'):
-                        continue
-                    if s == '' and proto in ('xml', 'soap11', 'http'):
-                        continue     # an empty element / empty query value is not distinguishable from absent text
                     payload = ('items', [s]) if pos == 'arr' else ('val', s)
                     res = h.run(proto, pos, payload)
                     got = classify(res)
@@ -632,13 +720,19 @@ LEX = {
     'DateTime': ('dateTime', ['2020-01-01T00:00:00', '2020-01-01T00:00:00Z', '2020-01-01T00:00:00+02:00', '2020-01-01T00:00:00.5Z',
                               '2020-01-01T00:00:00-04:49', '2020-01-01T00:00:00Zjunk', '2020-01-01T00:00:00+02:00x',
                               '2020-01-01T00:00:00 ', '2020-01-01T00:00:00+0200', '2020-01-01', 'abc', '2020-01-01T00:00',
-                              '2020-1-01T00:00:00', '20-01-01T00:00:00Z']),
+                              '2020-1-01T00:00:00', '20-01-01T00:00:00Z', '2020-13-01T00:00:00Z', '2020-02-30T00:00:00',
+                              '2020-01-01T25:00:00Z', '2020-01-01T00:00:00+24:00', '0000-01-01T00:00:00Z']),
     'Date': ('date', ['2020-01-05', '2020-01-05Z', '2020-01-05+02:00', '2020-01-05junk', '2020-01-05Zjunk', '2020-1-5',
-                      '2020-01-5', 'abc', '2020-01', '05-01-2020']),
-    'Time': ('time', ['12:00:00', '12:00:00.5', '23:59:59.999999', '12:00:00junk', '12:00', 'abc', '1:00:00', '12:00:00.']),
+                      '2020-01-5', 'abc', '2020-01', '05-01-2020', '2020-02-30', '2020-02-30Z', '2020-13-01+02:00']),
+    'Time': ('time', ['12:00:00', '12:00:00.5', '23:59:59.999999', '12:00:00junk', '12:00', 'abc', '1:00:00', '12:00:00.',
+                      '25:00:00', '12:61:00', '12:00:61']),
     'Duration': ('duration', ['P1D', 'PT1S', 'PT0.5S', '-P1DT2H', 'P1Djunk', 'PT1x5S', 'PT', 'P', 'xyz', 'P1S', 'PT1D', '1D', 'P1DT']),
     'Boolean': ('boolean', ['true', 'false', '1', '0', 'maybe', 'yes', '2', 'TRUE', 'tru', 'truex']),
     'Integer': ('integer', ['5', '-5', '+5', '007', '5x', '5.0', '1e3', '0x10', 'abc', '1_0', '--5']),
+    'Decimal': ('decimal', ['1.5', '-1.5', '+1.5', '1.', '.5', '007.50', '1E+1', '1e3', 'NaN', 'sNaN', 'Infinity', '-Infinity',
+                            'abc', '1_0', '1,5', '1.5x', '--1']),
+    'Double': ('double', ['1.5', '-1.5', '1e3', '1E+3', '1.5E-3', 'NaN', 'INF', '-INF', 'inf', 'nan', 'Infinity', '-inf',
+                          'abc', '1_0', '0x10', '1.5x', '.5', '5.']),
 }
 
 def lex_shape(tn, lit):
@@ -657,8 +751,14 @@ def lex_shape(tn, lit):
             return 'one-digit-month-or-day'
         if tn == 'Duration' and m and m.end() == len(lit):
             return 'degenerate-duration-without-components'
-    if tn == 'Integer' and _re.fullmatch(r'[+-]?\d+(_\d+)+', lit):
+        if tn in ('DateTime', 'Date', 'Time') and m and m.end() == len(lit):
+            return 'field-out-of-range'        # month 13, 30 February, hour 25, offset +24:00 ...
+    if tn in ('Integer', 'Decimal', 'Double') and _re.fullmatch(r'[+-]?\d+(_\d+)+', lit):
         return 'underscore-digit-separator'
+    if tn == 'Decimal' and _re.fullmatch(r'[+-]?(\d+\.?\d*|\.\d+)[eE][+-]?\d+', lit):
+        return 'exponent-notation'
+    if tn == 'Double' and lit.lower().lstrip('+-') in ('inf', 'infinity', 'nan') and lit not in ('INF', '-INF', 'NaN'):
+        return 'python-spelling-of-special-value'
     return 'literal:' + lit
 
 def family_lexical(check, tier):
@@ -710,29 +810,643 @@ def family_lexical(check, tier):
     check.sample({'family': 'lexical', 'DateTime': LEX['DateTime'][1][4:8]})
 
 
+# ------------------------------------------------------------------ correspondences of the facet models
+FACET_IMPORTS = ('From SpyneV Require Import Base.Prelude Base.Ext C08.DtModel C05.Facets Gen.FacetTypes C05.FacetModel.\n'
+                 'Definition tout_eqb := out_eqb otext_eqb.\n'
+                 'Definition run_text (p : Z) (a : str_attrs) (nl : bool) (v : option text) (pr : bool) : out (option text) :=\n'
+                 '  let fullm := fun _ : text => pr in\n'
+                 '  if p =? 0 then xml_elem_text class_Unicode fullm a nl v\n'
+                 '  else if p =? 2 then hier_text class_Unicode fullm a v\n'
+                 '  else match v with Some s => if p =? 1 then xml_attr_text class_Unicode fullm a s else flat_text class_Unicode fullm a s\n'
+                 '                  | None => Crash OtherExn end.\n'
+                 'Definition dtl_eqb := out_eqb (oeqb datetime_eqb).\nDefinition dl_eqb := out_eqb (oeqb date_eqb).\n'
+                 'Definition tl_eqb := out_eqb (oeqb tod_eqb).')
+
+def g_str_attrs(T):
+    A = T.Attributes
+    inf = _dec.Decimal('inf')
+    return ('{| sa_nillable := %s; sa_min_len := %s; sa_max_len := %s; sa_has_pattern := %s; sa_values := %s |}' % (
+        gbool(A.nillable), gz(A.min_len), 'PosInf' if A.max_len == inf else '(Fin %s)' % gz(A.max_len),
+        gbool(A.pattern is not None), glist([gtext(v) for v in sorted(A.values)])))
+
+def unicode_type_cases(check, tier):
+    from spyne.model.primitive import Unicode
+    rng = check.rng
+    kws = [{}, {'min_len': 2}, {'max_len': 3}, {'min_len': 1, 'max_len': 4}, {'pattern': '[a-z]+'}, {'pattern': 'a|ab'},
+           {'pattern': '\\d{2,3}'}, {'values': ['red', 'green']}, {'min_len': 2, 'pattern': '[ab]*'}, {'nillable': False},
+           {'min_len': 3, 'max_len': 2}, {'values': ['a', ''], 'min_len': 1}, {'pattern': '.*', 'max_len': 2, 'nillable': False},
+           {'min_len': 0, 'max_len': 0}]
+    pats = ['[a-z]+', 'a|ab', '(ab)*', '.', '.*', '[^a]*', 'a?b?', '\\w+', '\\s*', 'ab', '']
+    for _ in range(6 if tier == 'quick' else 60):
+        kw = {}
+        if rng.random() < .5:
+            kw['min_len'] = rng.randint(0, 3)
+        if rng.random() < .5:
+            kw['max_len'] = rng.randint(0, 5)
+        if rng.random() < .4:
+            kw['pattern'] = rng.choice(pats)
+        if rng.random() < .25:
+            kw['values'] = rng.sample(['a', 'ab', 'abc', '', 'red', 'B', '12'], rng.randint(1, 3))
+        if rng.random() < .3:
+            kw['nillable'] = False
+        kws.append(kw)
+    return [(kw, Unicode.customize(**kw)) for kw in kws]
+
+def unicode_probe_strings(kw, rng, n):
+    base = ['', 'a', 'ab', 'abc', 'abcd', 'abcde', 'abcdef', 'red', 'Red', 'B', '12', '123', '1234', 'ab\n', 'aab', 'b', ' ',
+            'ünï', '\U0001F600', 'a\U0001F600', 'é', 'ab ', ' ab']
+    for v in kw.get('values', []):
+        base += [v, v + 'x', v[:-1]]
+    for _ in range(n):
+        base.append(''.join(rng.choice('abAB12 \né\U0001F600') for _ in range(rng.randint(0, 6))))
+    return base
+
+def family_text_corr(check, tier):
+    """the four Unicode enforcement paths of coq/C05/FacetModel.v against XmlDocument.from_element (element and
+    attribute), JsonDocument._from_dict_value and HttpRpc's SimpleDictDocument.simple_dict_to_object; the regular
+    expression engine's answer travels in the case (it is the oracle [fullm] of the model)"""
+    from spyne import ComplexModel, XmlAttribute
+    from spyne.model.complex import ComplexModelMeta
+    from spyne.protocol.xml import XmlDocument
+    from spyne.protocol.json import JsonDocument
+    from spyne.protocol.http import HttpRpc
+    from lxml import etree
+    rng = check.rng
+    from spyne.protocol.yaml import YamlDocument
+    from spyne.protocol.msgpack import MessagePackDocument
+    xml = XmlDocument(validator='soft')
+    hiers = [('json', JsonDocument(validator='soft')), ('yaml', YamlDocument(validator='soft')),
+             ('msgpack', MessagePackDocument(validator='soft'))]
+    http = HttpRpc(validator='soft')
+    cases = []
+    def add(path, T, nil, v, o, what):
+        subject = (v or '') if path == 0 else v       # an element without text holds the empty string
+        pr = bool(T.Attributes.pattern is not None and subject is not None and T.Attributes._pattern_re.fullmatch(subject) is not None)
+        if o[0] == 'ok' and o[1] is not None and not isinstance(o[1], str):
+            return
+        cases.append(('(%d, %s, %s, %s, %s, %s)' % (path, g_str_attrs(T), gbool(nil), gopt(v, gtext), gbool(pr),
+                                                   gout(o, lambda x: gopt(x, gtext))), what))
+        check.count(('tcorr', path, what))
+    for kw, T in unicode_type_cases(check, tier):
+        W = ComplexModelMeta('W', (ComplexModel,), {'__namespace__': TNS, '_type_info': [('v', T)]})
+        WA = ComplexModelMeta('WA', (ComplexModel,), {'__namespace__': TNS, '_type_info': [('v', XmlAttribute(T))]})
+        for s in unicode_probe_strings(kw, rng, 3 if tier == 'quick' else 12) + [None]:
+            # XML element: None = an element without text; also with xsi:nil
+            el = etree.Element('x')
+            el.text = s if s else None
+            add(0, T, False, s if s else None, observe(xml.from_element, None, T, el), 'xml elem %r %r' % (kw, s))
+            if s is None or rng.random() < .15:
+                el = etree.Element('x')
+                el.text = s if s else None
+                el.set('{%s}nil' % XSI, rng.choice(['true', '1']))
+                add(0, T, True, s if s else None, observe(xml.from_element, None, T, el), 'xml nil %r %r' % (kw, s))
+            hn, hp = rng.choice(hiers)      # the three hierarchical protocols share _from_dict_value
+            add(2, T, False, s, observe(hp._from_dict_value, None, 'k', T, s, hp.validator), '%s %r %r' % (hn, kw, s))
+            if s is not None:
+                el = etree.Element('x')
+                try:
+                    el.set('v', s)
+                except ValueError:
+                    el = None
+                if el is not None:
+                    o = observe(xml.from_element, None, WA, el)
+                    add(1, T, False, s, ('ok', o[1].v) if o[0] == 'ok' else o, 'xml attr %r %r' % (kw, s))
+                o = observe(http.simple_dict_to_object, None, {'v': [s]}, W, http.validator)
+                add(3, T, False, s, ('ok', o[1].v) if o[0] == 'ok' else o, 'flat %r %r' % (kw, s))
+    lib.correspond(check, 'unicode_paths', FACET_IMPORTS, 'Z * str_attrs * bool * option text * bool * out (option text)',
+                   '(fun c => match c with (p, a, nl, v, pr, r) => tout_eqb (run_text p a nl v pr) r end)', cases,
+                   show='(fun c : Z * str_attrs * bool * option text * bool * out (option text) => '
+                        'match c with (p, a, nl, v, pr, r) => run_text p a nl v pr end)')
+    check.sample({'family': 'Unicode path correspondence', 'paths': ['xml element', 'xml attribute', 'json', 'http flat'],
+                  'cases': len(cases)})
+
+
+def g_rng_attrs(T, g):
+    A = T.Attributes
+    return ('{| ra_nillable := %s; ra_gt := %s; ra_ge := %s; ra_lt := %s; ra_le := %s; ra_values := %s |}' % (
+        gbool(A.nillable), gopt(A.gt, g), g(A.ge), gopt(A.lt, g), g(A.le), glist([g(v) for v in sorted(A.values)])))
+
+def family_range_corr(check, tier):
+    """datetime_/date_/time_ xml_leaf and doc_leaf (Coq, generated validate_native + the C08 readers) against
+    XmlDocument.from_element and JsonDocument._from_dict_value for customised DateTime / Date / Time types"""
+    import datetime as D
+    from spyne.model.primitive import DateTime, Date, Time
+    from spyne.protocol.xml import XmlDocument
+    from spyne.protocol.json import JsonDocument
+    from lxml import etree
+    from c08 import g_dt, g_date, g_tod, dt_literals
+    rng = check.rng
+    from spyne.protocol.yaml import YamlDocument
+    from spyne.protocol.msgpack import MessagePackDocument
+    xml = XmlDocument(validator='soft')
+    hiers = [('json', JsonDocument(validator='soft')), ('yaml', YamlDocument(validator='soft')),
+             ('msgpack', MessagePackDocument(validator='soft'))]
+    def tz(o):
+        return D.timezone(D.timedelta(minutes=o))
+    def rdt(near=None):
+        if near is not None and rng.random() < .7:
+            base = near + D.timedelta(seconds=rng.choice([-7200, -3600, -61, -1, 0, 1, 59, 3600, 7200]), microseconds=rng.choice([0, 0, 1, -1]))
+        else:
+            base = D.datetime(rng.randint(1990, 2030), rng.randint(1, 12), rng.randint(1, 28), rng.randint(0, 23), rng.randint(0, 59),
+                              rng.randint(0, 59), rng.choice([0, 0, 1, 999999, 500000]), tzinfo=D.timezone.utc)
+        return base.astimezone(tz(rng.choice([0, 0, 60, -60, 330, -210, 840, -840, rng.randint(-840, 840)])))
+    n_types = 14 if tier == 'quick' else 60
+    n_vals = 12 if tier == 'quick' else 30
+    malformed = dt_literals(check, 'quick')[:70]
+    for kind in ('DateTime', 'Date', 'Time'):
+        cases = {'xml': [], 'doc': []}
+        for i in range(n_types):
+            kw = {}
+            if kind == 'DateTime':
+                b1, b2 = sorted([rdt(), rdt()])
+                g, near = g_dt, b1
+            elif kind == 'Date':
+                b1, b2 = sorted([rdt().date(), rdt().date()])
+                g = g_date
+            else:
+                b1, b2 = sorted([rdt().time(), rdt().time()])
+                g = g_tod
+            if i == 0:
+                pass                      # the default attributes
+            else:
+                if rng.random() < .7:
+                    kw[rng.choice(['ge', 'gt'])] = b1
+                if rng.random() < .7:
+                    kw[rng.choice(['le', 'lt'])] = b2
+                if rng.random() < .15:
+                    kw['values'] = [b1, b2]
+                if rng.random() < .3:
+                    kw['nillable'] = False
+            T = {'DateTime': DateTime, 'Date': Date, 'Time': Time}[kind].customize(**kw)
+            ga = g_rng_attrs(T, g)
+            lits = []
+            for _ in range(n_vals):
+                if kind == 'DateTime':
+                    v = rdt(rng.choice([b1, b2]))
+                    if rng.random() < .2:
+                        v = v.replace(tzinfo=None)
+                    lit = v.isoformat()
+                    if lit.endswith('+00:00') and rng.random() < .5:
+                        lit = lit[:-6] + 'Z'
+                elif kind == 'Date':
+                    v = rng.choice([b1, b2]) + D.timedelta(days=rng.choice([-366, -1, 0, 0, 1, 30, 365]))
+                    lit = v.isoformat() + rng.choice(['', '', 'Z', '+02:00'])
+                else:
+                    b = rng.choice([b1, b2])
+                    us = (b.hour * 3600 + b.minute * 60 + b.second) * 1000000 + b.microsecond + rng.choice([-3600000000, -1, 0, 0, 1, 1000000])
+                    us = min(max(us, 0), 86399999999)
+                    v = D.time(us // 3600000000, us // 60000000 % 60, us // 1000000 % 60, us % 1000000)
+                    lit = v.isoformat()
+                lits.append(lit)
+            lits += rng.sample(malformed, 4)
+            if kind == 'Date':
+                lits += ['2020-02-30', '2020-1-5', '2020-01-05junk', 'abc', '']
+            if kind == 'Time':
+                lits += ['25:00:00', '12:00', '12:00:00junk', '']
+            for lit in lits + [None]:
+                el = etree.Element('x')
+                el.text = lit if lit else None
+                nil = lit is None and rng.random() < .5
+                if nil:
+                    el.set('{%s}nil' % XSI, 'true')
+                hn, hp = rng.choice(hiers)
+                for path, o in (('xml', observe(xml.from_element, None, T, el)),
+                                ('doc', observe(hp._from_dict_value, None, 'k', T, lit, hp.validator))):
+                    if path == 'xml' and lit == '':
+                        src = None
+                    else:
+                        src = lit
+                    if path == 'doc' and nil:
+                        continue
+                    try:
+                        go = gout(o, lambda x: gopt(x, g))
+                    except ValueError:
+                        continue            # an offset with seconds: outside the C08 value model
+                    if o[0] == 'ok' and o[1] is not None and type(o[1]) is not {'DateTime': D.datetime, 'Date': D.date, 'Time': D.time}[kind]:
+                        continue
+                    if path == 'xml':
+                        cases['xml'].append(('(%s, %s, %s, %s)' % (ga, gbool(nil), gopt(src, gtext), go), '%s%r xml nil=%s %r -> %r' % (kind, kw, nil, lit, o)))
+                    else:
+                        cases['doc'].append(('(%s, %s, %s)' % (ga, gopt(src, gtext), go), '%s%r %s %r -> %r' % (kind, kw, hn, lit, o)))
+                    check.count(('rcorr', kind, path, str(kw), lit))
+        low = {'DateTime': 'datetime', 'Date': 'date', 'Time': 'time'}[kind]
+        vt = {'DateTime': 'datetime', 'Date': 'date', 'Time': 'tod'}[kind]
+        eqb = {'DateTime': 'dtl_eqb', 'Date': 'dl_eqb', 'Time': 'tl_eqb'}[kind]
+        lib.correspond(check, low + '_xml_leaf', FACET_IMPORTS, 'rng_attrs %s * bool * option text * out (option %s)' % (vt, vt),
+                       '(fun c => match c with (a, nl, s, r) => %s (%s_xml_leaf a nl s) r end)' % (eqb, low), cases['xml'],
+                       show='(fun c : rng_attrs %s * bool * option text * out (option %s) => match c with (a, nl, s, r) => %s_xml_leaf a nl s end)' % (vt, vt, low))
+        lib.correspond(check, low + '_doc_leaf', FACET_IMPORTS, 'rng_attrs %s * option text * out (option %s)' % (vt, vt),
+                       '(fun c => match c with (a, s, r) => %s (%s_doc_leaf a s) r end)' % (eqb, low), cases['doc'],
+                       show='(fun c : rng_attrs %s * option text * out (option %s) => match c with (a, s, r) => %s_doc_leaf a s end)' % (vt, vt, low))
+    check.sample({'family': 'date/time range path correspondence', 'types': n_types * 3, 'values_per_type': n_vals})
+
+
+# ------------------------------------------------------------------ wire forms of every primitive kind
+import datetime as _dt
+import decimal as _dec
+NOCHECK = object()
+
+def same_native(a, b):
+    if b is NOCHECK:
+        return True
+    if isinstance(b, float) and b != b:
+        return isinstance(a, float) and a != a
+    if isinstance(b, _dt.datetime):
+        return isinstance(a, _dt.datetime) and (a.tzinfo is None) == (b.tzinfo is None) and a == b
+    try:
+        return a == b
+    except Exception:
+        return False
+
+def expect(check, h, fam, tdesc, texpr, shape, proto, pos, payload, want, native=NOCHECK, strict=True, extra=None):
+    """one request against the oracle.  strict: the canonical wire form of a logical request - accepted iff it
+    conforms.  lenient (an alternative document form, e.g. a MessagePack bin string or a JSON number where
+    Spyne itself writes text): it may be read as the value or refused, but never crash, never be accepted when
+    the value does not conform, never arrive as another value"""
+    res = h.run(proto, pos, payload)
+    got = classify(res)
+    if got is None:
+        return None
+    check.count((fam, tdesc, shape, proto, pos, repr(payload)))
+    if got.startswith('other'):
+        ok = False
+    elif strict:
+        ok = (got == 'accept') == want
+    else:
+        ok = got != 'accept' or want
+    if ok and got == 'accept' and native is not NOCHECK:
+        delivered = res[1]
+        if pos in ('arr', 'narr', 'multi', 'nmulti') and payload[0] == 'items' and len(payload[1]) == 1 and not isinstance(native, list):
+            delivered = delivered[0] if isinstance(delivered, list) and len(delivered) == 1 else NOCHECK
+        ok = same_native(delivered, native)
+    if not ok:
+        rp = {'family': fam, 'type_expr': texpr, 'protocol': proto, 'position': pos, 'payload': repr(payload)}
+        rp.update(extra or {})
+        check.fail('C05|%s|%s|%s|%s|%s' % (fam, tdesc, shape, proto, pos),
+                   '%s, %s, over %s at %s, request %r: expected %s, got %r' % (
+                       texpr, shape, proto, pos, payload,
+                       ('accept' if want else 'reject') if strict else ('accept or reject' if want else 'reject'), res), rp)
+    return got
+
+def d_(y, m, d, H=0, M=0, S=0, off=0):
+    return _dt.datetime(y, m, d, H, M, S, tzinfo=_dt.timezone(_dt.timedelta(minutes=off)) if off is not None else None)
+
+def forms_table():
+    D = _dec.Decimal
+    nan, inf = float('nan'), float('inf')
+    U1 = '12345678-1234-1234-1234-123456789abc'
+    import uuid
+    T = []
+    def add(texpr, tdesc, cases):
+        T.append((texpr, tdesc, cases))
+    # (shape, value, native, conforms, strict)
+    add('Unicode(min_len=2, max_len=3)', 'Unicode+max_len+min_len', [
+        ('empty-string', Wv('', ''), '', False, True),
+        ('bin-too-short', Wv(None, b'a'), 'a', False, False),
+        ('bin-too-long', Wv(None, b'abcd'), 'abcd', False, False),
+        ('bin-conforming', Wv(None, b'ab'), 'ab', True, False),
+        ('bin-not-utf8', Wv(None, b'\xff\xfe'), NOCHECK, False, False),
+        ('number-for-text', Wv(None, 5), NOCHECK, False, False),
+        ('list-for-text', Wv(None, ['ab']), NOCHECK, False, False)])
+    add('Unicode', 'Unicode', [
+        ('empty-string', Wv('', ''), '', True, True),
+        ('bin-conforming', Wv(None, b'ab'), 'ab', True, False)])
+    add('Unicode(pattern="[a-z]+")', 'Unicode+pattern', [
+        ('bin-not-matching', Wv(None, b'AB'), 'AB', False, False),
+        ('bin-matching', Wv(None, b'ab'), 'ab', True, False),
+        ('empty-string', Wv('', ''), '', False, True)])
+    add('Unicode(values=["red", "green"])', 'Unicode+values', [
+        ('bin-not-listed', Wv(None, b'blue'), 'blue', False, False),
+        ('bin-listed', Wv(None, b'red'), 'red', True, False)])
+    for texpr, tdesc, onb in (('Decimal(ge=0, le=10)', 'Decimal+ge+le', True), ('Decimal(gt=0, lt=10)', 'Decimal+gt+lt', False)):
+        add(texpr, tdesc, [
+            ('in-range', Wv('1.5', '1.5'), D('1.5'), True, True),
+            ('above', Wv('10.5', '10.5'), D('10.5'), False, True),
+            ('below', Wv('-0.5', '-0.5'), D('-0.5'), False, True),
+            ('on-upper-bound', Wv('10', '10'), D(10), onb, True),
+            ('on-lower-bound', Wv('0', '0'), D(0), onb, True),
+            ('nan', Wv('NaN', 'NaN'), NOCHECK, False, True),
+            ('snan', Wv('sNaN', 'sNaN'), NOCHECK, False, True),
+            ('infinity', Wv('Infinity', 'Infinity'), NOCHECK, False, True),
+            ('number-in-range', Wv(None, 1.5), D('1.5'), True, False),
+            ('number-above', Wv(None, 11), D(11), False, False),
+            ('integer-number', Wv(None, 3), D(3), True, False),
+            ('boolean-for-decimal', Wv(None, True), NOCHECK, False, False),
+            ('list-for-decimal', Wv(None, [1]), NOCHECK, False, False),
+            ('bin-in-range', Wv(None, b'1.5'), D('1.5'), True, False),
+            ('bin-above', Wv(None, b'11'), D(11), False, False)])
+    add('Decimal', 'Decimal', [
+        ('nan', Wv('NaN', 'NaN'), NOCHECK, False, True),
+        ('infinity', Wv('-Infinity', '-Infinity'), NOCHECK, False, True),
+        ('plain', Wv('-12.50', '-12.50'), D('-12.50'), True, True),
+        ('number-nan', Wv(None, nan), NOCHECK, False, False)])
+    add('Double(ge=0.0, le=10.0)', 'Double+ge+le', [
+        ('in-range', Wv('1.5', 1.5), 1.5, True, True),
+        ('above', Wv('10.5', 10.5), 10.5, False, True),
+        ('below', Wv('-0.5', -0.5), -0.5, False, True),
+        ('on-upper-bound', Wv('10.0', 10.0), 10.0, True, True),
+        ('integer-number', Wv('3', 3), 3, True, True),
+        ('nan', Wv('NaN', nan), nan, False, True),
+        ('inf', Wv('INF', inf), inf, False, True),
+        ('neg-inf', Wv('-INF', -inf), -inf, False, True),
+        ('text-for-double', Wv(None, '1.5'), 1.5, True, False),
+        ('text-above', Wv(None, '10.5'), 10.5, False, False),
+        ('list-for-double', Wv(None, [1.5]), NOCHECK, False, False)])
+    add('Double', 'Double', [
+        ('nan', Wv('NaN', nan), nan, True, True),
+        ('inf', Wv('INF', inf), inf, True, True),
+        ('neg-inf', Wv('-INF', -inf), -inf, True, True),
+        ('huge', Wv('1e+300', 1e300), 1e300, True, True)])
+    add('Double(gt=0.0)', 'Double+gt', [
+        ('nan', Wv('NaN', nan), nan, False, True),
+        ('inf', Wv('INF', inf), inf, True, True),
+        ('neg-inf', Wv('-INF', -inf), -inf, False, True),
+        ('on-lower-bound', Wv('0.0', 0.0), 0.0, False, True)])
+    add('Double(le=5.0)', 'Double+le', [
+        ('inf', Wv('INF', inf), inf, False, True),
+        ('neg-inf', Wv('-INF', -inf), -inf, True, True),
+        ('nan', Wv('NaN', nan), nan, False, True)])
+    for texpr, tdesc, onb in (('Date(ge=datetime.date(2020, 1, 1), le=datetime.date(2020, 12, 31))', 'Date+ge+le', True),
+                              ('Date(gt=datetime.date(2020, 1, 1), lt=datetime.date(2020, 12, 31))', 'Date+gt+lt', False)):
+        add(texpr, tdesc, [
+            ('in-range', Wv('2020-06-01', '2020-06-01'), _dt.date(2020, 6, 1), True, True),
+            ('below', Wv('2019-12-31', '2019-12-31'), _dt.date(2019, 12, 31), False, True),
+            ('above', Wv('2021-01-01', '2021-01-01'), _dt.date(2021, 1, 1), False, True),
+            ('on-lower-bound', Wv('2020-01-01', '2020-01-01'), _dt.date(2020, 1, 1), onb, True),
+            ('on-upper-bound', Wv('2020-12-31', '2020-12-31'), _dt.date(2020, 12, 31), onb, True),
+            ('in-range-with-zone', Wv('2020-06-01Z', '2020-06-01Z'), _dt.date(2020, 6, 1), True, True),
+            ('bin-in-range', Wv(None, b'2020-06-01'), _dt.date(2020, 6, 1), True, False),
+            ('bin-below', Wv(None, b'2019-06-01'), _dt.date(2019, 6, 1), False, False),
+            ('number-for-date', Wv(None, 20200601), NOCHECK, False, False),
+            ('native-date-in-range', Wv(None, _dt.date(2020, 6, 1)), _dt.date(2020, 6, 1), True, False),
+            ('native-date-below', Wv(None, _dt.date(2019, 6, 1)), _dt.date(2019, 6, 1), False, False)])
+    for texpr, tdesc, onb in (('Time(ge=datetime.time(9), le=datetime.time(17))', 'Time+ge+le', True),
+                              ('Time(gt=datetime.time(9), lt=datetime.time(17))', 'Time+gt+lt', False)):
+        add(texpr, tdesc, [
+            ('in-range', Wv('12:00:00', '12:00:00'), _dt.time(12), True, True),
+            ('below', Wv('08:59:59.999999', '08:59:59.999999'), _dt.time(8, 59, 59, 999999), False, True),
+            ('above', Wv('17:00:00.000001', '17:00:00.000001'), _dt.time(17, 0, 0, 1), False, True),
+            ('on-lower-bound', Wv('09:00:00', '09:00:00'), _dt.time(9), onb, True),
+            ('on-upper-bound', Wv('17:00:00', '17:00:00'), _dt.time(17), onb, True),
+            ('bin-in-range', Wv(None, b'12:00:00'), _dt.time(12), True, False),
+            ('bin-below', Wv(None, b'08:00:00'), _dt.time(8), False, False),
+            ('number-for-time', Wv(None, 12), NOCHECK, False, False)])
+    add('DateTime(ge=datetime.datetime(2020, 1, 1, tzinfo=utc))', 'DateTime+ge', [
+        ('in-range', Wv('2021-01-01T00:00:00Z', '2021-01-01T00:00:00Z'), d_(2021, 1, 1), True, True),
+        ('below', Wv('2019-12-31T23:59:59Z', '2019-12-31T23:59:59Z'), d_(2019, 12, 31, 23, 59, 59), False, True),
+        ('below-by-offset', Wv('2020-01-01T01:00:00+02:00', '2020-01-01T01:00:00+02:00'), d_(2020, 1, 1, 1, off=120), False, True),
+        ('in-range-by-offset', Wv('2019-12-31T23:00:00-02:00', '2019-12-31T23:00:00-02:00'), d_(2019, 12, 31, 23, off=-120), True, True),
+        ('naive-in-range', Wv('2020-01-01T00:00:00', '2020-01-01T00:00:00'), d_(2020, 1, 1, off=None), True, True),
+        ('naive-below', Wv('2019-12-31T23:59:59', '2019-12-31T23:59:59'), d_(2019, 12, 31, 23, 59, 59, off=None), False, True),
+        ('bin-in-range', Wv(None, b'2021-01-01T00:00:00Z'), d_(2021, 1, 1), True, False),
+        ('bin-below', Wv(None, b'2019-01-01T00:00:00Z'), d_(2019, 1, 1), False, False),
+        ('number-for-datetime', Wv(None, 5), NOCHECK, False, False),
+        ('native-timestamp-in-range', Wv(None, d_(2021, 1, 1)), d_(2021, 1, 1), True, False),
+        ('native-timestamp-below', Wv(None, d_(2019, 1, 1)), d_(2019, 1, 1), False, False)])
+    add('Decimal(values=[D("1.5"), D("2.5")])', 'Decimal+values', [
+        ('listed', Wv('2.5', '2.5'), D('2.5'), True, True),
+        ('listed-other-spelling', Wv('2.50', '2.50'), D('2.5'), True, True),
+        ('not-listed', Wv('3', '3'), D(3), False, True)])
+    add('Date(values=[datetime.date(2020, 1, 1)])', 'Date+values', [
+        ('listed', Wv('2020-01-01', '2020-01-01'), _dt.date(2020, 1, 1), True, True),
+        ('not-listed', Wv('2020-01-02', '2020-01-02'), _dt.date(2020, 1, 2), False, True)])
+    add('Time(values=[datetime.time(12), datetime.time(13)])', 'Time+values', [
+        ('listed', Wv('13:00:00', '13:00:00'), _dt.time(13), True, True),
+        ('not-listed', Wv('12:00:01', '12:00:01'), _dt.time(12, 0, 1), False, True)])
+    add('DateTime(values=[datetime.datetime(2020, 1, 1, tzinfo=utc)])', 'DateTime+values', [
+        ('listed', Wv('2020-01-01T00:00:00Z', '2020-01-01T00:00:00Z'), d_(2020, 1, 1), True, True),
+        ('listed-other-offset', Wv('2020-01-01T02:00:00+02:00', '2020-01-01T02:00:00+02:00'), d_(2020, 1, 1, 2, off=120), True, True),
+        ('not-listed', Wv('2020-01-01T00:00:01Z', '2020-01-01T00:00:01Z'), d_(2020, 1, 1, 0, 0, 1), False, True)])
+    add('Duration', 'Duration', [
+        ('one-day', Wv('P1D', 'P1D'), _dt.timedelta(1), True, True),
+        ('garbage', Wv('xyz', 'xyz'), NOCHECK, False, True),
+        ('bin', Wv(None, b'P1D'), _dt.timedelta(1), True, False),
+        ('bin-garbage', Wv(None, b'xyz'), NOCHECK, False, False),
+        ('number-for-duration', Wv(None, 5), NOCHECK, False, False)])
+    add('Uuid', 'Uuid', [
+        ('canonical', Wv(U1, U1), uuid.UUID(U1), True, True),
+        ('garbage', Wv('xyz', 'xyz'), NOCHECK, False, True),
+        ('without-hyphens', Wv(U1.replace('-', ''), U1.replace('-', '')), NOCHECK, False, True),
+        ('bin', Wv(None, U1.encode()), uuid.UUID(U1), True, False),
+        ('bin-garbage', Wv(None, b'xyz'), NOCHECK, False, False),
+        ('number-for-uuid', Wv(None, 5), NOCHECK, False, False)])
+    add('Boolean', 'Boolean', [
+        ('true', Wv('true', True), True, True, True),
+        ('false', Wv('false', False), False, True, True),
+        ('one', Wv('1', True), True, True, True),
+        ('text-for-boolean', Wv(None, 'true'), True, True, False),
+        ('number-for-boolean', Wv(None, 2), NOCHECK, False, False),
+        ('bin-for-boolean', Wv(None, b'true'), True, True, False),
+        ('list-for-boolean', Wv(None, [True]), NOCHECK, False, False)])
+    add('Integer8(ge=0)', 'Integer8+ge', [
+        ('text-for-integer', Wv(None, '5'), 5, True, False),
+        ('text-out-of-range', Wv(None, '200'), 200, False, False),
+        ('text-below-ge', Wv(None, '-1'), -1, False, False),
+        ('bin-for-integer', Wv(None, b'5'), 5, True, False),
+        ('bin-out-of-range', Wv(None, b'200'), 200, False, False),
+        ('float-integral', Wv(None, 5.0), 5, True, False),
+        ('float-fraction', Wv(None, 5.5), NOCHECK, False, False),
+        ('float-out-of-range', Wv(None, 200.0), 200, False, False),
+        ('list-for-integer', Wv(None, [5]), NOCHECK, False, False)])
+    add('Enum("red", "green", type_name="Color")', 'Enum', [
+        ('listed', Wv('red', 'red'), NOCHECK, True, True),
+        ('not-listed', Wv('blue', 'blue'), NOCHECK, False, True),
+        ('number-for-enum', Wv(None, 5), NOCHECK, False, False)])
+    return T
+
+
+def family_forms(check, tier):
+    """every primitive kind with range / length / pattern / enumeration facets: canonical wire forms must be
+    accepted iff the value conforms; alternative document forms (byte strings, numbers where Spyne writes
+    text and the reverse, YAML native timestamps, lists) must never crash, never let a non-conforming value
+    through and never arrive as another value.  All six protocols, four nesting positions."""
+    for texpr, tdesc, cases in forms_table():
+        h = Harness(mk_type(texpr))
+        positions = ('top', 'nested', 'arr') if tdesc == 'Enum' else ('top', 'nested', 'arr', 'att')
+        for shape, v, native, conforms, strict in cases:
+            for proto in PROTOS:
+                for pos in positions:
+                    payload = ('items', [v]) if pos == 'arr' else ('val', v)
+                    expect(check, h, 'forms', tdesc, texpr, shape, proto, pos, payload, conforms, native, strict)
+    check.sample({'family': 'wire forms', 'types': [t[1] for t in forms_table()][:8],
+                  'example': ['Unicode(min_len=2, max_len=3)', 'bin-too-short', "msgpack bin b'a'", 'reject']})
+
+
+NULL_TYPES = ['Unicode', 'Integer', 'Integer8', 'Decimal', 'Double', 'Boolean', 'DateTime', 'Date', 'Time', 'Duration',
+              'Uuid', 'Unicode(min_len=2)', 'Decimal(ge=0)', 'Date(ge=datetime.date(2020, 1, 1))']
+
+def family_null(check, tier):
+    """nullability at every position and in every protocol that can say null: an explicit null (JSON null,
+    YAML ~, MessagePack nil, xsi:nil) is accepted iff the type is nillable and arrives as None; an absent
+    member is accepted iff min_occurs is 0"""
+    rng = check.rng
+    types = NULL_TYPES if tier != 'quick' else NULL_TYPES[:11] + rng.sample(NULL_TYPES[11:], 1)
+    for texpr in types:
+        for nill in (True, False):
+            for mino in (0, 1):
+                if mino == 1 and nill and tier == 'quick' and rng.random() < .5:
+                    continue
+                full = texpr + ('(' if '(' not in texpr else '.customize(') + 'nillable=%s, min_occurs=%d)' % (nill, mino)
+                h = Harness(mk_type(full))
+                tdesc = texpr.split('(')[0] + ('+facets' if '(' in texpr else '')
+                for proto in PROTOS:
+                    for pos in ('top', 'nested', 'att'):
+                        expect(check, h, 'null', tdesc, full, 'null|nillable=%s' % nill, proto, pos, ('null',), nill, None)
+                        expect(check, h, 'null', tdesc, full, 'absent|min_occurs=%d' % mino, proto, pos, ('absent',), mino == 0, None)
+                    if mino == 0:
+                        expect(check, h, 'null', tdesc, full, 'null-item|nillable=%s' % nill, proto, 'arr', ('items', [NULL]), nill, None)
+    check.sample({'family': 'null / absent', 'types': NULL_TYPES[:6], 'positions': ['top', 'nested', 'att', 'arr item']})
+
+
+def family_array_occurs(check, tier):
+    """Array(T, min_occurs=a) constrains the array element itself (0 or 1 occurrences), Array(T(min_occurs=m,
+    max_occurs=n)) the items inside it: absent / null / 0..k items, as an argument and as a member of an
+    object, over all six protocols"""
+    specs = [('Array(Integer)', 0, 0, None), ('Array(Integer, min_occurs=1)', 1, 0, None),
+             ('Array(Integer(min_occurs=1))', 0, 1, None), ('Array(Integer(min_occurs=2, max_occurs=3))', 0, 2, 3),
+             ('Array(Integer(min_occurs=1, max_occurs=2), min_occurs=1)', 1, 1, 2),
+             ('Array(Integer(max_occurs=2))', 0, 0, 2)]
+    hi = 5 if tier == 'quick' else 8
+    corr = {'xml_array': [], 'hier_array': [], 'flat_array': []}
+    for aexpr, wmin, mmin, mmax in specs:
+        h = Harness(mk_type('Integer'), array=mk_type(aexpr))
+        gd = '{| ad_wmin := %s; ad_wmax := Fin 1; ad_mmin := %s; ad_mmax := %s |}' % (gz(wmin), gz(mmin), 'PosInf' if mmax is None else '(Fin %s)' % gz(mmax))
+        def tie(proto, pos, n, got):
+            # the Coq model of the three enforcement points against what the implementation just did
+            if got is None or got.startswith('other'):
+                return
+            name = {'xml': 'xml_array', 'soap11': 'xml_array', 'json': 'hier_array', 'yaml': 'hier_array', 'msgpack': 'hier_array', 'http': 'flat_array'}[proto]
+            req = gz(n or 0) if name == 'flat_array' else gopt(n, gz)
+            corr[name].append(('(%s, %s, %s)' % (gd, req, gbool(got == 'accept')), '%s %s %s n=%r -> %s' % (aexpr, proto, pos, n, got)))
+        for proto in PROTOS:
+            for pos in ('arr', 'narr'):
+                got = expect(check, h, 'array-occurs', aexpr, 'Integer', 'array-absent', proto, pos, ('absent',), wmin == 0, None,
+                             extra={'array_expr': aexpr})
+                tie(proto, pos, None, got)
+                for n in range(0, hi):
+                    want = mmin <= n and (mmax is None or n <= mmax)
+                    shape = 'items-under-min' if n < mmin else 'items-over-max' if (mmax is not None and n > mmax) else 'items-conforming'
+                    got = expect(check, h, 'array-occurs', aexpr, 'Integer', shape, proto, pos, ('items', list(range(n))), want,
+                                 list(range(n)), extra={'array_expr': aexpr})
+                    tie(proto, pos, n, got)
+    imports = 'From SpyneV Require Import Base.Prelude Base.Ext C05.Valid C05.ArrayModel.'
+    for name, rt in (('xml_array', 'option Z'), ('hier_array', 'option Z'), ('flat_array', 'Z')):
+        lib.correspond(check, name, imports, 'arr_decl * %s * bool' % rt,
+                       '(fun c => match c with (d, r, b) => Bool.eqb (%s d r) b end)' % name, corr[name])
+    check.sample({'family': 'array vs item occurrence', 'arrays': [s[0] for s in specs], 'items': [0, hi - 1]})
+
+
+def family_null_members(check, tier):
+    """object-valued and array-valued members: null is accepted iff the member is nillable (and arrives as
+    None), absent iff min_occurs is 0"""
+    from spyne import Application, rpc, ServiceBase, ComplexModel, Array, Unicode, Integer
+    from spyne.model.complex import ComplexModelMeta
+    from spyne.protocol.xml import XmlDocument
+    from spyne.protocol.soap import Soap11
+    from spyne.protocol.json import JsonDocument
+    from spyne.protocol.yaml import YamlDocument
+    from spyne.protocol.msgpack import MessagePackDocument
+    from lxml import etree
+    calls = []
+    Inner = ComplexModelMeta('Inner', (ComplexModel,), {'__namespace__': TNS, '_type_info': [('a', Integer)]})
+    for kind, base in (('object', Inner), ('array', Array(Integer))):
+        for nill in (True, False):
+            for mino in (0, 1):
+                MT = base.customize(nillable=nill, min_occurs=mino)
+                Outer = ComplexModelMeta('Outer', (ComplexModel,), {'__namespace__': TNS, '_type_info': [('m', MT), ('z', Integer)]})
+
+                class S(ServiceBase):
+                    @rpc(Outer, _returns=Unicode)
+                    def member(ctx, x):
+                        calls.append(('member', None if x is None else x.m)); return 'ok'
+
+                    @rpc(MT, _returns=Unicode)
+                    def arg(ctx, x):
+                        calls.append(('arg', x)); return 'ok'
+                protos = {'xml': XmlDocument, 'soap11': Soap11, 'json': JsonDocument, 'yaml': YamlDocument, 'msgpack': MessagePackDocument}
+                for proto, P in protos.items():
+                    app = Application([S], TNS, in_protocol=P(validator='soft'), out_protocol=JsonDocument())
+                    for pos in ('member', 'arg'):
+                        for form, want in (('null', nill), ('absent', mino == 0)):
+                            if proto in ('xml', 'soap11'):
+                                nsq = '{%s}' % TNS
+                                root = etree.Element(nsq + pos, nsmap={None: TNS, 'xsi': XSI})
+                                parent = root
+                                if pos == 'member':
+                                    parent = etree.SubElement(root, nsq + 'x')
+                                    etree.SubElement(parent, nsq + 'z').text = '1'
+                                if form == 'null':
+                                    etree.SubElement(parent, nsq + ('m' if pos == 'member' else 'x')).set('{%s}nil' % XSI, 'true')
+                                if proto == 'soap11':
+                                    env = etree.Element('{http://schemas.xmlsoap.org/soap/envelope/}Envelope')
+                                    etree.SubElement(env, '{http://schemas.xmlsoap.org/soap/envelope/}Body').append(root)
+                                    root = env
+                                body = etree.tostring(root)
+                            else:
+                                if pos == 'member':
+                                    d = {'member': {'x': dict({'z': 1}, **({'m': None} if form == 'null' else {}))}}
+                                else:
+                                    d = {'arg': ({'x': None} if form == 'null' else {})}
+                                body = encode_doc(proto, d)
+                            res = drive(app, calls, proto, body=body)
+                            got = classify(res)
+                            check.count(('null-member', kind, nill, mino, proto, pos, form))
+                            ok = (got == 'accept') == want and not got.startswith('other')
+                            if ok and got == 'accept':
+                                ok = res[1] is None
+                            if not ok:
+                                check.fail('C05|null-member|%s|%s|%s|%s' % (kind, '%s|nillable=%s,min_occurs=%d' % (form, nill, mino), proto, pos),
+                                           '%s-valued %s (nillable=%s, min_occurs=%d) sent as %s over %s: expected %s, got %r' % (
+                                               kind, pos, nill, mino, form, proto, 'accept with None' if want else 'reject', res),
+                                           {'family': 'null-member', 'kind': kind, 'nillable': nill, 'min_occurs': mino,
+                                            'form': form, 'protocol': proto, 'position': pos})
+    check.sample({'family': 'null / absent object and array members', 'protocols': ['xml', 'soap11', 'json', 'yaml', 'msgpack']})
+
+
 def run(check):
     check.rule = ('generated one-argument services around each type under test (every fixed-width integer class, '
-                  'arbitrary-size integers, customised range/enumeration/nillable facets, Unicode length/pattern/values, '
-                  'occurrence bounds), values on/inside/outside every boundary, at top-level / nested field / array member / '
-                  'XML attribute, through XmlDocument, Soap11, JsonDocument, YamlDocument, MessagePackDocument (ServerBase) and '
-                  'HttpRpc (WSGI GET); a case is distinct by (type, facets, value, protocol, position)')
+                  'arbitrary-size integers, Unicode, Decimal, Double, Boolean, DateTime, Date, Time, Duration, Uuid, Enum with '
+                  'customised range / length / pattern / enumeration / nillable / occurrence facets), values on/inside/outside '
+                  'every boundary in their canonical wire form and in the alternative document forms (byte strings, numbers '
+                  'for text-encoded types and the reverse, native YAML timestamps, lists), null and absent, at top-level / '
+                  'nested field / array member / XML attribute / array-valued and object-valued member, through XmlDocument, '
+                  'Soap11, JsonDocument, YamlDocument, MessagePackDocument (ServerBase) and HttpRpc (WSGI GET); a case is '
+                  'distinct by (family, type, facets, value or shape, protocol, position)')
     check.trusted = list(lib.COMMON_TRUSTED) + [
         'translator harness/translate/numtypes.py (validate_native / validate_string of the number models -> Gen/NumTypes.v)',
-        'the Python reference predicate ref_conforms_* in harness/c05.py (the specification as used by the direct oracle)',
+        'translator harness/translate/facettypes.py (validate_string / validate_native of ModelBase, SimpleModel, Unicode, '
+        'DateTime, Time and re_match_with_span -> Gen/FacetTypes.v; the statement shapes it pins: the naive-value rule of '
+        'DateTime.validate_native and the fullmatch branch of re_match_with_span)',
+        'the Python reference predicates ref_conforms_* and the expectation tables of harness/c05.py (the specification as '
+        'used by the direct oracle); lxml XMLSchema as the judge of lexical validity',
+        'the date/time readers and printers of coq/C08/DtModel.v (tied and proved by C08) as the from_unicode of the date/time paths',
     ]
-    check.assumptions = ['date/time range facets and Decimal digit facets are exercised by the oracle only where listed; '
-                         'the theorems cover the integer family, None handling and occurrence counting',
-                         'patterns are compared against Python re.fullmatch (Spyne uses match + span == whole string)']
-    check.regen(['numtypes'])
+    check.assumptions = [
+        'the regular expression engine is the oracle fullm of the Unicode theorems (re.Pattern.fullmatch); its answers travel '
+        'in the correspondence cases',
+        'Unicode attributes encoding / format / cast / empty_is_none are at their defaults in the modelled paths (the '
+        'translator checks the class defaults)',
+        'range bounds of DateTime are timezone-aware as the documentation demands (a naive bound raises TypeError in Python); '
+        'UTC offsets are whole minutes; spyne.LOCAL_TZ has a fixed offset (read by the translator)',
+        'Decimal and Double ranges, Boolean, Duration, Uuid, Enum and the alternative document forms are decided by the '
+        'direct oracle only; Decimal total_digits / fraction_digits are not part of the property text and are not checked',
+        'HttpRpc is driven through WSGI GET query strings only (werkzeug is absent: no form bodies)']
+    check.regen(['numtypes', 'facettypes'])
     check.check_sources()
     check.prove('Props.C05', THEOREMS)
     family_leaf_corr(check, check.tier)
+    family_text_corr(check, check.tier)
+    family_range_corr(check, check.tier)
     family_int_e2e(check, check.tier)
     family_text_e2e(check, check.tier)
     family_occurs(check, check.tier)
     family_occurs_single(check, check.tier)
     family_datetime_range(check, check.tier)
     family_lexical(check, check.tier)
+    family_forms(check, check.tier)
+    family_null(check, check.tier)
+    family_array_occurs(check, check.tier)
+    family_null_members(check, check.tier)
     lib.flush_correspondences(check)
     return check.finish()
 
@@ -741,12 +1455,54 @@ def replay(check, path):
     r = json.load(open(path))
     print(json.dumps(r, indent=1))
     rp = r.get('replay', {})
-    if 'protocol' in rp and 'class' in rp:
+    if 'type_expr' in rp and 'payload' in rp:
+        # families forms / null / array-occurs: the type, the array and the request are expressions over ns()
+        T = mk_type(rp['type_expr'])
+        h = Harness(T, array=mk_type(rp['array_expr']) if rp.get('array_expr') else None)
+        payload = eval(rp['payload'], dict(ns()))
+        print('now:', h.run(rp['protocol'], rp['position'], payload))
+    elif 'protocol' in rp and 'class' in rp:
         import spyne.model.primitive.number as P
         T = getattr(P, rp['class'])
         if rp.get('attrs'):
             T = T.customize(**rp['attrs'])
         h = Harness(T)
+        if rp.get('form') in ('null', 'absent'):
+            payload = (rp['form'],)
+        else:
+            payload = ('items', [rp['value']]) if rp['position'] == 'arr' else ('val', rp['value'])
+        print('now:', h.run(rp['protocol'], rp['position'], payload))
+    elif 'attrs' in rp and 'value' in rp and 'protocol' in rp:
+        from spyne.model.primitive import Unicode
+        h = Harness(Unicode.customize(**rp['attrs']))
         payload = ('items', [rp['value']]) if rp['position'] == 'arr' else ('val', rp['value'])
         print('now:', h.run(rp['protocol'], rp['position'], payload))
+    elif 'literal' in rp and ('type' in rp or 'facet' in rp):
+        import spyne.model.primitive as P
+        if 'facet' in rp:
+            import datetime as dtm
+            T = P.DateTime.customize(**{rp['facet']: dtm.datetime(2020, 1, 1, tzinfo=dtm.timezone.utc)})
+        else:
+            T = getattr(P, rp['type'])
+        h = Harness(T)
+        for proto in ([rp['protocol']] if 'protocol' in rp else rp.get('protocols', ['xml'])):
+            print('now (%s):' % proto, h.run(proto, rp.get('position', 'top'), ('val', rp['literal'])))
+    elif rp.get('family') == 'null-member' or 'min_occurs' in rp:
+        # these families build their own services: run the family again and show what it reports for this key
+        class Rec(object):
+            tier = check.tier
+            rng = check.rng
+            def count(self, *a, **k): pass
+            def sample(self, *a, **k): pass
+            def fail(self, key, what, replay):
+                if key == r.get('key'):
+                    print('now:', what)
+        rec = Rec()
+        if rp.get('family') == 'null-member':
+            family_null_members(rec, check.tier)
+        elif 'times' in rp:
+            family_occurs_single(rec, check.tier)
+        else:
+            family_occurs(rec, check.tier)
+            lib._QUEUE[:] = []
     return 0
